@@ -386,6 +386,8 @@ def _au_run(fn, st, loc):
                 return True                                   # a method schema is in force and has handed out a constraint
             if src == "self.debug":
                 return False
+            if src == "self.stage" and "stage" in st:
+                return st["stage"]
             if src.startswith("tokens."):
                 return src[7:]
             raise P.Untranslatable(q + ": attribute " + src)
@@ -587,6 +589,48 @@ def argument_unslicer_facts(cls):
     st = [flat(str(U(x))) for x in P.find_def(cls, "start").body]
     for frag in ("self.numargs = None", "self.args = []", "self.kwargs = {}", "self.argname = None", "self.argConstraint = None"):
         need(frag in st, q + ".start no longer contains " + frag)
+    return out
+
+
+def call_unslicer_facts(cls, tokc):
+    """CallUnslicer: checkToken and the head of receiveClose are EXECUTED (same evaluator as for ArgumentUnslicer) for
+    every stage 0..5 and every type byte: the tables cu_tok_ok (which type bytes a stage accepts) and cu_close_ok (in
+    which stages the sequence may close).  receiveChild's stage bodies are tied by fragments searched in the whole class
+    (a stage may live in a helper method)."""
+    q = "CallUnslicer"
+    ck, cl = P.find_def(cls, "checkToken"), P.find_def(cls, "receiveClose")
+    tbs = ["INT", "NEG", "STRING", "VOCAB", "OPEN", "FLOAT", "LONGINT", "LONGNEG"]
+    ok = []
+    for stage in range(6):
+        for tb in tbs:
+            eff = _au_run(ck, dict(stage=stage), dict(typebyte=tb, size=5))
+            need(eff in ([], [("raise", "BananaError")]), q + ".checkToken: unexpected effects %s" % (eff,))
+            if not eff:
+                ok.append((stage, tokc[tb][0]))
+    cl_first = [x for x in cl.body if not (isinstance(x, ast.Expr) and isinstance(x.value, ast.Constant))][:1]
+    need(cl_first and isinstance(cl_first[0], ast.If), q + ".receiveClose does not start with the 'ended too early' test")
+    close_fn = ast.FunctionDef(name="receiveClose", args=cl.args, body=cl_first, decorator_list=[])
+    closes = []
+    for stage in range(6):
+        eff = _au_run(close_fn, dict(stage=stage), {})
+        need(eff in ([], [("raise", "BananaError")]), q + ".receiveClose: unexpected effects %s" % (eff,))
+        if not eff:
+            closes.append(stage)
+    out = ["Definition cu_tok_ok (stage tb : Z) : bool :=\n existsb (fun p => Z.eqb (fst p) stage && Z.eqb (snd p) tb) [%s].  "
+           "(* CallUnslicer.checkToken does not raise *)" % "; ".join("(%d, %d)" % p_ for p_ in ok),
+           "Definition cu_close_ok (stage : Z) : bool := existsb (Z.eqb stage) [%s].  (* receiveClose does not raise BananaError *)"
+           % "; ".join(str(x) for x in closes)]
+    src = Src(U(cls))
+    for frag in ("self.reqID = token", "self.stage = 1", "assert self.reqID not in self.broker.activeLocalCalls",
+                 "self.objID = token", "try:\n self.obj = self.broker.getMyReferenceByCLID(token)\n except KeyError:\n raise Violation(",
+                 "if self.objID < 0:\n self.interface = None\n else:\n self.interface = self.obj.getInterface()", "self.stage = 2",
+                 "self.stage = 3", "self.methodSchema = getattr(self.obj, 'methodSchema', None)", "self.methodname = None",
+                 "if self.broker.requireSchema and (not self.methodSchema):", "ms = self.interface.get(self.methodname)",
+                 "if not ms:", "self.methodSchema = ms", "assert isinstance(token, ArgumentUnslicer)", "self.allargs = token", "self.stage = 4",
+                 "assert self.stage == 3", "if self.methodSchema:\n unslicer.setConstraint(self.methodSchema)",
+                 "delivery = InboundDelivery(self.broker, self.reqID, self.obj, self.interface, self.methodname, self.methodSchema, self.allargs)",
+                 "if self.stage > 0:\n self.broker.callFailed(f, self.reqID)"):
+        need(frag in src, q + " no longer contains: " + frag)
     return out
 
 
@@ -971,6 +1015,7 @@ def generate():
     else:
         need(not any(isinstance(n, ast.Try) and any(m is sites[0] for m in ast.walk(n)) for n in ast.walk(cu)),
              "CallUnslicer.receiveChild: the method name is decoded inside an unrecognised try statement")
+    out.extend(call_unslicer_facts(cu, tokc))
     out.append("Definition methodname_nontext_violation : bool := %s.  (* a method name that is not UTF-8 -> Violation (true) / "
                "UnicodeDecodeError escapes (false) *)" % ("true" if guarded_ else "false"))
     # the two unknown-argument flags of RemoteMethodSchema(**kwargs)
@@ -1015,6 +1060,44 @@ def generate():
         need(len(tr_) == 1 and all(flat(str(U(h.body[-1]))) == "raise" for h in tr_[0].handlers), "_callFinished swallows the Violation of checkResults")
     out.append("Definition callFinished_checks_results : bool := %s.  (* methodSchema.checkResults(res, False) before the "
                "answer is sent, a Violation propagates *)" % ("true" if checks_res else "false"))
+    # ---------------------------------------------------------------- RemoteCopy state under a stateSchema (copyable.py)
+    cp = P.load("copyable.py")
+    ga = flat(str(U(P.find_def(cp, "AttributeDictConstraint.getAttrConstraint"))))
+    i0, i1, i2, i3 = (ga.find(f_) for f_ in ("c = self.keys.get(attrname)", "if self.ignoreUnknown: return (False, None)",
+                                             "if self.acceptUnknown: return (True, None)", "raise Violation(\"unknown attribute"))
+    need(0 <= i0 < i1 < i2 < i3 and "if isinstance(c, Optional): c = c.constraint" in ga, "AttributeDictConstraint.getAttrConstraint changed")
+    aco = flat(str(U(P.find_def(cp, "AttributeDictConstraint.checkObject"))))
+    for frag in ("if type(obj) != type({}):", "constraint = self.keys[k]", "except KeyError: if not self.ignoreUnknown: raise Violation",
+                 "else: constraint.checkObject(obj[k], inbound)", "if isinstance(self.keys[k], Optional): allkeys.remove(k)",
+                 "if allkeys: raise Violation"):
+        need(frag in aco, "AttributeDictConstraint.checkObject no longer contains: " + frag)
+    rcu = P.find_class(cp, "RemoteCopyUnslicer")
+    rcs = flat(str(U(P.find_def(rcu, "receiveChild"))))
+    for frag in ("if self.attrname == None:", "if attrname in self.d: raise BananaError", "s = self.schema",
+                 "accept, self.attrConstraint = s.getAttrConstraint(attrname)", "self.attrname = attrname",
+                 "self.setAttribute(self.attrname, obj)", "self.attrname = None", "self.attrConstraint = None"):
+        need(frag in rcs, "RemoteCopyUnslicer.receiveChild no longer contains: " + frag)
+    need(rcs.count("assert accept") in (0, 1), "RemoteCopyUnslicer.receiveChild: assert accept")
+    out.append("Definition rc_asserts_accept : bool := %s.  (* RemoteCopyUnslicer.receiveChild: `assert accept` after getAttrConstraint *)"
+               % ("true" if "assert accept" in rcs else "false"))
+    plain = "attrname = six.ensure_str(obj)" in rcs
+    guarded_name = "try: attrname = six.ensure_str(obj) except UnicodeDecodeError: raise Violation(" in rcs
+    need(plain, "RemoteCopyUnslicer.receiveChild: attrname = six.ensure_str(obj)")
+    need(guarded_name or "try:" not in rcs, "RemoteCopyUnslicer.receiveChild: unrecognised try statement")
+    out.append("Definition rc_nontext_name_violation : bool := %s.  (* an attribute name that is not UTF-8 -> Violation / escapes *)"
+               % ("true" if guarded_name else "false"))
+    rck = flat(str(U(P.find_def(rcu, "checkToken"))))
+    for frag in ("if self.attrname == None: if typebyte not in (tokens.STRING, tokens.VOCAB): raise BananaError",
+                 "elif self.attrConstraint: self.attrConstraint.checkToken(typebyte, size)"):
+        need(frag in rck, "RemoteCopyUnslicer.checkToken no longer contains: " + frag)
+    rcd = flat(str(U(P.find_def(rcu, "doOpen"))))
+    need("self.attrConstraint.checkOpentype(opentype)" in rcd and "unslicer.setConstraint(self.attrConstraint)" in rcd, "RemoteCopyUnslicer.doOpen")
+    rcc = flat(str(U(P.find_def(rcu, "receiveClose"))))
+    need("obj = self.factory(self.d)" in rcc, "RemoteCopyUnslicer.receiveClose no longer builds the object from self.d")
+    closes = "self.schema.checkObject(self.d" in rcc and rcc.find("self.schema.checkObject(self.d") < rcc.find("self.factory(self.d)")
+    need(closes or "checkObject" not in rcc, "RemoteCopyUnslicer.receiveClose: unrecognised use of checkObject")
+    out.append("Definition rc_close_checks_state : bool := %s.  (* does receiveClose apply the stateSchema's checkObject to the "
+               "collected state before the factory runs? *)" % ("true" if closes else "false"))
     # ReferenceUnslicer.receiveChild: `if self.constraint: self.constraint.checkObject(self.obj, True)` must be a top-level
     # statement reached on EVERY path after `self.obj = self.protocol.getObject(obj)`: no return / continue / break and no
     # re-binding of self.obj / self.constraint in between (e.g. an early return for Deferred placeholders skips it)
